@@ -947,6 +947,18 @@ func (ctx *RenderContext) evaluateExpression(node Node) (interface{}, error) {
 				}
 			}
 
+			// _self.name() is the macro of this template, also when a function
+			// of that name exists (as the bare call name() is)
+			if self, ok := n.moduleExpr.(*VariableNode); ok && self.name == "_self" {
+				if macro, ok := ctx.GetMacro(n.name); ok {
+					if macroNode, ok := macro.(*MacroNode); ok {
+						return func(w io.Writer) error {
+							return macroNode.CallMacro(w, ctx, args...)
+						}, nil
+					}
+				}
+			}
+
 			// Fallback - try calling it like a regular function
 			if IsDebugEnabled() && debugger.level >= DebugVerbose {
 				LogVerbose("Fallback - calling '%s' as a regular function", n.name)
